@@ -756,6 +756,8 @@ def run_c11(ctx: kernel.Ctx, case: Dict[str, Any]) -> None:
                 if len(set(idxs)) < len(idxs):
                     ctx.probe("update_repeated_index")
                 for i, ps in given.items():
+                    if not (0 <= i < len(leaf)):
+                        continue  # an index the buffer itself handed out although nothing is stored there (reported when it was sampled)
                     actual = buf.sum_tree[i]
                     okv = False
                     for p in ps:
